@@ -5,18 +5,7 @@ sys.path.insert(0, os.path.dirname(os.path.abspath(__file__)))
 
 def load_module(path):
     import llparse
-    pk = path + ".pkl"
-    if os.path.exists(pk) and os.path.getmtime(pk) >= os.path.getmtime(path):
-        with open(pk, "rb") as f:
-            return pickle.load(f)
-    mod = llparse.parse_module(path)
-    try:
-        with open(pk + ".tmp%d" % os.getpid(), "wb") as f:
-            pickle.dump(mod, f, protocol=pickle.HIGHEST_PROTOCOL)
-        os.replace(pk + ".tmp%d" % os.getpid(), pk)
-    except Exception:
-        pass
-    return mod
+    return llparse.parse_module(path)
 
 
 def run_job(mod, harness, params, opts=None, engine=None):
